@@ -2,27 +2,28 @@
 C06 for the multi-task VRP environment: `MTVRPEnv.check_solution_validity` against the independent
 definition `Spec.Mtvrp.Feasible`.
 
-FINDINGS (each with a `…_statement`, a machine-checked counterexample and the strongest partial theorem):
-* completeness fails: the replayed clock ignores `speed` (`check_complete_counterexample`), and the depot
-  deadline is applied to open routes, which never drive back (`check_complete_counterexample_open`);
-* soundness fails: "linehauls before backhauls" is never tested (`check_sound_counterexample`), the way back
+FINDINGS that remain (each with a `…_statement`, a machine-checked counterexample and the strongest partial
+theorem):
+* completeness fails: the depot deadline is applied to open routes, which never drive back
+  (`check_complete_counterexample_open`);
+* soundness fails: "linehauls before backhauls" is never tested (`check_sound_counterexample`) and the way back
   of the last route is not tested when the action list does not end at the depot
-  (`check_sound_counterexample_final_leg`), and the clock ignores `speed` (`check_sound_counterexample_speed`);
-* the batched checker is not the conjunction of the row-wise checkers: `_check_c1` compares the load of every
-  row with the capacity of every row (`checkBatch_rowwise_counterexample`); with equal capacities it is
-  (`checkBatch_eq_all_of_equal_caps`).
-`check_complete_partial` / `check_sound_partial` hold for every feature valuation (all 16 variants) and every
-action list of any length.
+  (`check_sound_counterexample_final_leg`).
+Fixed upstream and now proved positively: the replayed clock honours `speed` (afacad0; no `T = D` hypothesis
+any more, `spInst` / `slowInst` are positive examples) and the batched checker is the conjunction of the
+row-wise checkers for ANY capacities (0be4e8c; `checkBatch_eq_all`).
+`check_complete_partial` / `check_sound_partial` hold for every feature valuation (all 16 variants), any speed
+and every action list of any length.
 -/
 import Rl4co.Proofs.MtvrpChecker
 
 namespace Rl4co.Mtvrp
 open Rl4co.Spec.Mtvrp
 
-/-- **C06 (MTVRP), soundness, partial**: if the checker accepts, the solution is feasible — PROVIDED the speed
-is 1, every route keeps its linehauls before its backhauls, and (for closed routes) the action list ends with
-a depot visit.  None of the three provisos can be dropped, see the counterexamples below. -/
-theorem check_sound_partial (i : Inst) (hwf : wf i = true) (hT : ∀ a b, i.T a b = i.D a b) (as : List Nat)
+/-- **C06 (MTVRP), soundness, partial**: if the checker accepts, the solution is feasible — PROVIDED every
+route keeps its linehauls before its backhauls and (for closed routes) the action list ends with a depot
+visit.  Neither proviso can be dropped, see the counterexamples below. -/
+theorem check_sound_partial (i : Inst) (hwf : wf i = true) (as : List Nat)
     (hord : ∀ r ∈ routes as, Ordered i r) (hend : i.openR = true ∨ endsAtDepot as = true)
     (h : check i as = true) : Feasible i as := by
   simp only [check, checkWith, Bool.and_eq_true] at h
@@ -36,7 +37,7 @@ theorem check_sound_partial (i : Inst) (hwf : wf i = true) (hT : ∀ a b, i.T a 
     rcases hend with h | h
     · exact Or.inl h
     · exact Or.inr (Or.inl h)
-  have hrp := replay_sound i hT hlim as 0 0 0 hlim hrep hP r1 rs1 h1
+  have hrp := replay_sound i hlim as 0 0 0 hlim hrep hP r1 rs1 h1
   have hL := c1_sound i.cap i.dL (wf_depot hwf).1 as 0 hcL r1 rs1 h1
   have hB := c1_sound i.cap i.dB (wf_depot hwf).2 as 0 hcB r1 rs1 h1
   rw [h1] at hr
@@ -57,10 +58,11 @@ theorem check_sound_partial (i : Inst) (hwf : wf i = true) (hT : ∀ a b, i.T a 
 
 
 /-- **C06 (MTVRP), completeness, partial**: the checker accepts every feasible solution of a well-formed
-instance that passes the checker's static data asserts — PROVIDED the speed is 1 and, for open routes, the
-depot stays open long enough after every customer's deadline (`slackOk`).  Neither proviso can be dropped. -/
+instance that passes the checker's static data asserts — PROVIDED, for open routes, the depot stays open long
+enough after every customer's deadline (`slackOk`, what the generator guarantees).  The proviso cannot be
+dropped. -/
 theorem check_complete_partial (i : Inst) (hwf : wf i = true) (hstat : checkStatic i = true)
-    (hT : ∀ a b, i.T a b = i.D a b) (hD : ∀ a b, 0 ≤ i.D a b) (h00 : i.D 0 0 = 0)
+    (hD : ∀ a b, 0 ≤ i.D a b) (h00 : i.D 0 0 = 0) (hT00 : i.T 0 0 = 0)
     (hslack : i.openR = true → ∀ j, 1 ≤ j → j ≤ i.n → slackOk i j = true)
     (as : List Nat) (hf : Feasible i as) : check i as = true := by
   simp only [check, checkWith, Bool.and_eq_true]
@@ -70,7 +72,7 @@ theorem check_complete_partial (i : Inst) (hwf : wf i = true) (hstat : checkStat
     · subst hne; simp [wf_cap hwf]
     · exact ⟨(hf.route r hr hne).loadL, (hf.route r hr hne).loadB⟩
   refine ⟨⟨⟨⟨(sortedTest_iff i.n as).2 ⟨hf.range, hf.once⟩, hstat⟩, ?_⟩, ?_⟩, ?_⟩
-  · apply replay_complete i hT hstat hD h00 hslack as 0 0 0 hf.range (by omega) (fun _ => ⟨rfl, rfl⟩)
+  · apply replay_complete i hstat hD h00 hT00 hslack as 0 0 0 hf.range (by omega) (fun _ => ⟨rfl, rfl⟩)
       (fun h => absurd rfl h)
     intro r rs hrs
     have key : ∀ r' ∈ routes as, r' ≠ [] → ContTD i 0 0 0 r' := by
@@ -121,22 +123,14 @@ def lineInst (n : Nat) (x : Nat → Int) : Inst :=
 /-- The full completeness statement of C06 for this checker. -/
 def check_complete_statement : Prop :=
   ∀ (i : Inst) (as : List Nat), wf i = true → checkStatic i = true → (∀ a b, 0 ≤ i.D a b) → i.D 0 0 = 0 →
-    Feasible i as → check i as = true
+    i.T 0 0 = 0 → Feasible i as → check i as = true
 
-/-- witness 1 (speed 2): one customer at distance 512, travel time 256, deadline 300 -/
+/-- former witness 1 (speed 2): one customer at distance 512, travel time 256, deadline 300 — `[1, 0]` is
+feasible and, since afacad0 (the replay divides by `speed`), accepted -/
 def spInst : Inst :=
   { lineInst 1 (fun j => 512 * j) with
     T := fun a b => 256 * (((a : Int) - b).natAbs : Int),
     late := fun j => some (if j = 0 then 4096 else 300) }
-
-/-- **the checker's clock ignores `speed`**: `[1, 0]` is feasible (arrival 256 ≤ 300) but the checker
-replays the clock with the distance 512 instead of the travel time and raises. -/
-theorem check_complete_counterexample : ¬ check_complete_statement := by
-  intro h
-  have hc := h spInst [1, 0] (by decide) (by decide)
-    (by intro a b; simp only [spInst, lineInst]; omega) (by decide) ((feasible_iff _ _).1 (by decide))
-  have : checkReplay spInst 0 0 0 [1, 0] = false := by decide
-  simp [check, checkWith, this] at hc
 
 /-- witness 2 (open routes, speed 1): one customer at distance 256, the depot closes at 300 -/
 def opInst : Inst :=
@@ -149,7 +143,7 @@ leg back against the depot deadline 300 and raises. -/
 theorem check_complete_counterexample_open : ¬ check_complete_statement := by
   intro h
   have hc := h opInst [1, 0] (by decide) (by decide)
-    (by intro a b; simp only [opInst, lineInst]; omega) (by decide) ((feasible_iff _ _).1 (by decide))
+    (by intro a b; simp only [opInst, lineInst]; omega) (by decide) (by decide) ((feasible_iff _ _).1 (by decide))
   have : checkReplay opInst 0 0 0 [1, 0] = false := by decide
   simp [check, checkWith, this] at hc
 
@@ -169,7 +163,7 @@ def ordInst : Inst :=
     dL := fun j => if j = 2 then 1 else 0, dB := fun j => if j = 1 then 1 else 0 }
 
 theorem check_of_parts {i : Inst} {as : List Nat} (h1 : sortedTest i.n as = true)
-    (h2 : (checkStatic i && checkReplay i 0 0 0 as && checkC1 [i.cap] i.dL 0 as && checkC1 [i.cap] i.dB 0 as) = true) :
+    (h2 : (checkStatic i && checkReplay i 0 0 0 as && checkC1 i.cap i.dL 0 as && checkC1 i.cap i.dB 0 as) = true) :
     check i as = true := by
   simp only [Bool.and_eq_true] at h2
   simp [check, checkWith, h1, h2.1.1.1, h2.1.1.2, h2.1.2, h2.2]
@@ -197,92 +191,48 @@ theorem check_sound_counterexample_final_leg : ¬ check_sound_statement := by
 
 example : checkReplay flInst 0 0 0 [1, 2, 0] = false := by decide
 
-/-- witness 5 (speed 1/2): customers at 128 and 256, travel times doubled, service 64 at customer 1,
-deadline 1030 at customer 2 -/
+/-- former witness 5 (speed 1/2): customers at 128 and 256, travel times doubled, service 64 at customer 1,
+deadline 1030 at customer 2: arrival at customer 2 via customer 1 is 512 + 64 + 512 = 1088 > 1030 -/
 def slowInst : Inst :=
   { lineInst 2 (fun j => 128 * j) with
     T := fun a b => 4 * (128 * (((a : Int) - b).natAbs : Int)),
     late := fun j => some (if j = 0 then 8192 else if j = 1 then 2048 else 1030),
     service := fun j => if j = 1 then 64 else 0 }
 
-/-- **the clock of the checker ignores `speed`, other direction**: arrival at customer 2 via customer 1 is
-512 + 64 + 512 = 1088 > 1030, the checker computes 128 + 64 + 128 and accepts. -/
-theorem check_sound_counterexample_speed : ¬ check_sound_statement := by
-  intro h
-  have hf := h slowInst [1, 2, 0] (by decide) (check_of_parts sortedTest_2 (by decide))
-  have := (feasible_iff _ _).2 hf
-  revert this; decide
+/-- the speed-related witnesses are now judged correctly (afacad0) -/
+example : Feasible spInst [1, 0] ∧ check spInst [1, 0] = true :=
+  ⟨(feasible_iff _ _).1 (by decide), check_of_parts sortedTest_1 (by decide)⟩
+example : ¬ Feasible slowInst [1, 2, 0] ∧ check slowInst [1, 2, 0] = false := by
+  refine ⟨fun h => ?_, ?_⟩
+  · have := (feasible_iff _ _).2 h
+    revert this; decide
+  · have : checkReplay slowInst 0 0 0 [1, 2, 0] = false := by decide
+    simp [check, checkWith, this]
 
-/-! ### the batched checker (`_check_c1` compares `[B]` with `[B, 1]`) -/
+/-! ### the batched checker (`_check_c1`: `used_cap : [B]` against `vehicle_capacity.squeeze(-1) : [B]`) -/
 
-theorem all_const {caps : List Int} {c : Int} (hne : caps ≠ []) (h : ∀ x ∈ caps, x = c) (p : Int → Bool) :
-    caps.all p = p c := by
-  cases caps with
-  | nil => exact absurd rfl hne
-  | cons x xs =>
-    have hx : x = c := h x (by simp)
-    subst hx
-    simp only [List.all_cons]
-    have : xs.all p = true ∨ p x = false := by
-      by_cases hp : p x = true
-      · left
-        simp only [List.all_eq_true]
-        intro y hy
-        rw [h y (List.mem_cons_of_mem _ hy)]; exact hp
-      · right; simpa using hp
-    rcases this with h1 | h1 <;> simp [h1]
+theorem zipWith_map_self {α β γ : Type} (g : α → β → γ) (f : α → β) :
+    ∀ l : List α, List.zipWith g l (l.map f) = l.map (fun x => g x (f x))
+  | [] => rfl
+  | x :: l => by simp [zipWith_map_self g f l]
 
-theorem checkC1_const {caps : List Int} {c : Int} (hne : caps ≠ []) (h : ∀ x ∈ caps, x = c) (dem : Nat → Int) :
-    ∀ (as : List Nat) (used : Int), checkC1 caps dem used as = checkC1 [c] dem used as := by
-  intro as
-  induction as with
-  | nil => intro _; rfl
-  | cons a as ih =>
-    intro used
-    simp only [checkC1]
-    rw [all_const hne h, ih]
-    simp
-
-/-- With equal capacities in all rows (what the generator produces) the batched checker is the
-conjunction of the row-wise checkers. -/
-theorem checkBatch_eq_all_of_equal_caps (rows : List (Inst × List Nat)) (c : Int)
-    (h : ∀ r ∈ rows, r.1.cap = c) : checkBatch rows = rows.all (fun r => check r.1 r.2) := by
-  have key : ∀ r ∈ rows, checkWith (rows.map (fun r' => r'.1.cap)) r.1 r.2 = check r.1 r.2 := by
-    intro r hr
-    have hne : rows.map (fun r' => r'.1.cap) ≠ [] := by
-      intro e
-      have := List.map_eq_nil_iff.mp e
-      subst this; simp at hr
-    have hall : ∀ x ∈ rows.map (fun r' => r'.1.cap), x = r.1.cap := by
-      intro x hx
-      obtain ⟨r', hr', e⟩ := List.mem_map.mp hx
-      rw [← e, h r' hr', h r hr]
-    simp only [check, checkWith]
-    rw [checkC1_const hne hall, checkC1_const hne hall]
+/-- **The batched checker is the conjunction of the row-wise checkers**, whatever the capacities of the rows
+(before 0be4e8c this held only for equal capacities). -/
+theorem checkBatch_eq_all (rows : List (Inst × List Nat)) :
+    checkBatch rows = rows.all (fun r => check r.1 r.2) := by
   unfold checkBatch
-  rw [Bool.eq_iff_iff]
-  simp only [List.all_eq_true]
-  exact ⟨fun hh r hr => by rw [← key r hr]; exact hh r hr, fun hh r hr => by rw [key r hr]; exact hh r hr⟩
-
-/-- "the batched checker is the conjunction of the row-wise checkers" — required by C04/C06 -/
-def checkBatch_rowwise_statement : Prop :=
-  ∀ rows : List (Inst × List Nat), checkBatch rows = rows.all (fun r => check r.1 r.2)
+  rw [zipWith_map_self, List.all_map]
+  rfl
 
 /-- two one-customer rows: capacity 8 with demand 6, capacity 4 with demand 2 -/
 def capRow (cap dem : Int) : Inst := { lineInst 1 (fun j => 256 * j) with cap := cap, dL := fun j => if j = 0 then 0 else dem }
 
-/-- **cross-row capacity comparison**: both rows are feasible and accepted on their own, the batch is
-rejected because the load 6 of row 0 is compared with the capacity 4 of row 1. -/
-theorem checkBatch_rowwise_counterexample : ¬ checkBatch_rowwise_statement := by
-  intro h
-  have hb := h [(capRow 8 6, [1, 0]), (capRow 4 2, [1, 0])]
+/-- the former cross-row witness: both rows feasible, the batch is accepted -/
+example : checkBatch [(capRow 8 6, [1, 0]), (capRow 4 2, [1, 0])] = true := by
+  rw [checkBatch_eq_all]
   have h1 : check (capRow 8 6) [1, 0] = true := check_of_parts sortedTest_1 (by decide)
   have h2 : check (capRow 4 2) [1, 0] = true := check_of_parts sortedTest_1 (by decide)
-  have h3 : checkC1 [8, 4] (capRow 8 6).dL 0 [1, 0] = false := by decide
-  simp only [List.all_cons, List.all_nil, h1, h2, Bool.and_true] at hb
-  simp [checkBatch, checkWith, capRow, lineInst] at hb
-  simp [capRow, lineInst] at h3
-  simp [h3] at hb
+  simp [h1, h2]
 
 /-- non-vacuity of the partial theorems: `exInst` satisfies all their hypotheses and `[1, 2, 0]` is feasible -/
 example : wf exInst = true ∧ checkStatic exInst = true ∧ Feasible exInst [1, 2, 0] ∧ endsAtDepot [1, 2, 0] = true :=
